@@ -627,3 +627,38 @@ func negateCmp(op token.Token) token.Token {
 	}
 	return op
 }
+
+// blockGuards lists the branch conditions (other than loop headers and
+// error-return tests of preceding calls) under which block b is reached.
+func blockGuards(w *World, b *ssa.BasicBlock) []string {
+	var out []string
+	ex := newExprCtx(w)
+	for _, g := range b.Parent().Blocks {
+		if g == b || len(g.Instrs) == 0 || !g.Dominates(b) || isLoopHeader(g) {
+			continue
+		}
+		iff, ok := g.Instrs[len(g.Instrs)-1].(*ssa.If)
+		if !ok {
+			continue
+		}
+		d0 := edgeDominates(g, g.Succs[0], b)
+		d1 := edgeDominates(g, g.Succs[1], b)
+		if d0 == d1 {
+			continue
+		}
+		// skip `if err != nil { return err }` style tests (the other edge is a direct failure)
+		other := g.Succs[0]
+		if d0 {
+			other = g.Succs[1]
+		}
+		if directFailure(other) {
+			continue
+		}
+		pol := ""
+		if d1 {
+			pol = "!"
+		}
+		out = append(out, pol+ex.expr(iff.Cond))
+	}
+	return out
+}
